@@ -884,9 +884,16 @@ def check_group(v, tier, d):
         inputs = keys + [x for x in dict.fromkeys(a[1] for a in aggs)]
         sel, outnames, spec = [], [], []
         gnames = []
+        noself = set()
         for ki, k in enumerate(keys):
             if g.rng.random() < 0.25:   # grouping by an alias of the projection
                 al = "?k%d" % ki
+                clash = [a[1] for a in aggs if a[1] not in keys and a[1] not in gnames and a[1] not in outnames]
+                if clash and g.rng.random() < 0.5:
+                    # ... an alias that is the NAME of a binding aggregated in the same query (`?parent AS ?person,
+                    # COUNT(?person) AS ?n ... GROUP BY ?person`): the key is the output column, the aggregate reads the binding
+                    al = g.rng.choice(clash)
+                    noself.add(al)
                 sel.append("%s AS %s" % (k, al))
                 outnames.append(al)
                 gnames.append(al)
@@ -897,7 +904,7 @@ def check_group(v, tier, d):
             spec.append({"op": "key", "i": inputs.index(k) + 1})
         for j, (op, x) in enumerate(aggs):
             al = "?g%d" % j
-            if sum(1 for a in aggs if a[1] == x) == 1 and g.rng.random() < 0.2:
+            if sum(1 for a in aggs if a[1] == x) == 1 and x not in noself and g.rng.random() < 0.2:
                 al = x    # the aggregate is named like the binding it aggregates (`SUM(?v) AS ?v`)
             fn = {"count": "COUNT(%s)", "countd": "COUNT(DISTINCT %s)", "sum": "SUM(%s)"}[op] % x
             sel.append("%s AS %s" % (fn, al))
@@ -1150,6 +1157,12 @@ def check_having(v, tier, d):
             x = g.rng.choice([y for y in names if y != k])
             an = x if g.rng.random() < 0.35 else "?n"   # the aggregate may be named like the binding it aggregates
             sel, outnames, group = [k, "COUNT(%s) AS %s" % (x, an)], [k, an], [k]
+            zs = [y for y in names if y != k and y != an]
+            if zs and g.rng.random() < 0.4:
+                # the grouping column is shown under the NAME of another binding of the pattern (`?o AS ?s ... GROUP BY ?s
+                # HAVING ?s = ...`): GROUP BY and HAVING mean the output column, not the pattern binding of that name
+                z = g.rng.choice(zs)
+                sel, outnames, group = ["%s AS %s" % (k, z), "COUNT(%s) AS %s" % (x, an)], [z, an], [z]
         elif _i >= nbig and len(names) >= 2 and g.rng.random() < 0.2:
             sel, outnames = shadow_select(g, names)
         sel, outnames, group = alias_some(g, sel, outnames, group)
